@@ -21,7 +21,9 @@ and **the whole existing test suite still passes**.
   do not create other worktrees.
 * Python to use: `/venv/bin/python` (has numpy, pytest; the sandbox has no network).
   When run with the worktree as current directory, `import nptdms` resolves to the
-  worktree's copy (check `nptdms.__file__` if in doubt).
+  worktree's copy (check `nptdms.__file__` if in doubt).  NOTE: a script located outside the
+  worktree (your demos) imports the installed copy from /repo unless it starts with
+  `import sys, os; sys.path.insert(0, os.getcwd())` - start every demo with that line.
 * Test suite (must still pass, all 497 tests, with your change applied; ~20 s):
   `cd {wt} && /venv/bin/python -m pytest -q -p no:cacheprovider --timeout=900 -x`
   Do not edit, delete or skip tests: changes go in library code under `nptdms/`
